@@ -3,7 +3,11 @@ CONSTANTS
   MCNets = {"bitcoin", "regtest", "testnet", "testnet4", "signet", "litecoin", "litecoin_legacy", "litecoin_testnet", "dogecoin", "dogecoin_testnet", "bitcoinlib_test"}
   MCHints <- HintSets
   MCPlain = {"bitcoin", "regtest", "testnet", "testnet4", "signet", "litecoin", "litecoin_legacy", "litecoin_testnet", "dogecoin", "dogecoin_testnet", "bitcoinlib_test"}
+  MCTargets = {"bitcoin", "litecoin", "dogecoin", "testnet"}
+  MCMaxOps = 3
 INVARIANT RoundTrip
+INVARIANT ExportIsCurrent
+INVARIANT OpsEffect
 INVARIANT AmbiguityRule
 INVARIANT DetectExact
 INVARIANT TruthAllowed
